@@ -183,10 +183,12 @@ theorem preTail_ids (S : SF) (cfg : Cfg) (seen : Seen) (t2 : Tree) (d : Nat) :
   unfold preTail at hx
   split at hx
   · simp at hx
-  · simp only at hx
-    split at hx
-    · simp at hx
+  · split at hx
     · exact finalStep_ids t2 _ d x hx
+    · simp only at hx
+      split at hx
+      · simp at hx
+      · exact finalStep_ids t2 _ d x hx
 
 /-- **Only in-scope URLs get a request.** Every node to which `preprocess` attaches a request was
 normalised by the URL normaliser and passed the operator's include / exclude filters with exactly
@@ -446,5 +448,272 @@ end
 theorem postprocess_bounded (S : SF) (hS : okPost S = true) (cfg : Cfg) (ex : String → Extract) (hops : Nat) (t : Tree)
     (h : ∀ j ∈ t.flatten, Bounded cfg hops j) : ∀ j ∈ (postprocess S cfg ex t).1.flatten, Bounded cfg hops j :=
   Tree.post_bounded S hS cfg ex hops _ _ _ _ t h
+
+/-! ### the local seen-store (C08) -/
+
+/-- is the node checked as a "seed" (the seed itself or a redirect target) rather than as an asset? -/
+def checkedAsSeed (t : Tree) (i : Info) : Bool := !(t.parentStatus i.id == some Status.gotChildren)
+
+/-- one iteration of `SeencheckItem`'s loop -/
+def scStep (t : Tree) (acc : Seen × List String) (i : Info) : Seen × List String :=
+  match acc.1.lookup i.url with
+  | none => ((i.url, checkedAsSeed t i) :: acc.1, acc.2)
+  | some wasSeed =>
+    if !wasSeed && checkedAsSeed t i then ((i.url, true) :: acc.1, acc.2)
+    else (acc.1, i.id :: acc.2)
+
+theorem seencheck_eq (t : Tree) (items : List Info) (seen : Seen) :
+    seencheck t items seen = items.foldl (scStep t) (seen, []) := rfl
+
+/-- store extension: every recorded URL stays recorded, and a "seed" record stays a "seed" record -/
+def Ext (s s' : Seen) : Prop := ∀ u b, s.lookup u = some b → ∃ b', s'.lookup u = some b' ∧ (b = true → b' = true)
+
+theorem Ext.refl (s : Seen) : Ext s s := fun _ b h => ⟨b, h, id⟩
+theorem Ext.trans {a b c : Seen} (h1 : Ext a b) (h2 : Ext b c) : Ext a c := by
+  intro u x hx
+  obtain ⟨y, hy, hxy⟩ := h1 u x hx
+  obtain ⟨z, hz, hyz⟩ := h2 u y hy
+  exact ⟨z, hz, fun h => hyz (hxy h)⟩
+
+theorem lookup_cons_self (u : String) (b : Bool) (s : Seen) : List.lookup u ((u, b) :: s) = some b := by
+  simp [List.lookup]
+
+theorem lookup_cons_ne {u v : String} (b : Bool) (s : Seen) (h : u ≠ v) : List.lookup u ((v, b) :: s) = List.lookup u s := by
+  simp only [List.lookup]
+  have : (u == v) = false := by simpa using h
+  simp [this]
+
+theorem scStep_ext (t : Tree) (acc : Seen × List String) (i : Info) : Ext acc.1 (scStep t acc i).1 := by
+  intro u b hb
+  unfold scStep
+  split
+  · rename_i hnone
+    have hne : u ≠ i.url := by intro h; rw [h] at hb; rw [hnone] at hb; cases hb
+    exact ⟨b, by simp only; rw [lookup_cons_ne _ _ hne]; exact hb, id⟩
+  · rename_i w hw
+    split
+    · rename_i hc
+      by_cases hu : u = i.url
+      · exact ⟨true, by simp only; rw [hu]; exact lookup_cons_self _ _ _, fun _ => rfl⟩
+      · exact ⟨b, by simp only; rw [lookup_cons_ne _ _ hu]; exact hb, id⟩
+    · exact ⟨b, hb, id⟩
+
+theorem scStep_skipped_mono (t : Tree) (acc : Seen × List String) (i : Info) (x : String) (h : x ∈ acc.2) : x ∈ (scStep t acc i).2 := by
+  unfold scStep
+  split
+  · exact h
+  · split
+    · exact h
+    · exact List.mem_cons_of_mem _ h
+
+theorem fold_ext (t : Tree) (items : List Info) (acc : Seen × List String) : Ext acc.1 (items.foldl (scStep t) acc).1 := by
+  induction items generalizing acc with
+  | nil => exact Ext.refl _
+  | cons x xs ih => exact (scStep_ext t acc x).trans (ih _)
+
+theorem fold_skipped_mono (t : Tree) (items : List Info) (acc : Seen × List String) (x : String) (h : x ∈ acc.2) :
+    x ∈ (items.foldl (scStep t) acc).2 := by
+  induction items generalizing acc with
+  | nil => exact h
+  | cons y ys ih => exact ih _ (scStep_skipped_mono t acc y x h)
+
+/-- **seen ⇒ skipped**: a node whose URL the store already holds is marked seen, unless it is checked as a seed /
+redirect target and the URL had only been recorded as an asset -/
+theorem fold_must_skip (t : Tree) (seen : Seen) (items : List Info) (acc : Seen × List String) (hext : Ext seen acc.1)
+    (i : Info) (hi : i ∈ items) (w : Bool) (hw : seen.lookup i.url = some w) (hex : w = true ∨ checkedAsSeed t i = false) :
+    i.id ∈ (items.foldl (scStep t) acc).2 := by
+  induction items generalizing acc with
+  | nil => cases hi
+  | cons x xs ih =>
+    simp only [List.foldl_cons]
+    rcases List.mem_cons.mp hi with rfl | hi
+    · apply fold_skipped_mono
+      obtain ⟨w', hw', hww⟩ := hext _ _ hw
+      unfold scStep
+      rw [hw']
+      simp only
+      have : (!w' && checkedAsSeed t i) = false := by
+        rcases hex with h | h
+        · simp [hww h]
+        · simp [h]
+      simp [this]
+    · exact ih _ (hext.trans (scStep_ext t acc x)) hi
+
+/-- every checked URL ends up recorded -/
+theorem fold_records (t : Tree) (items : List Info) (acc : Seen × List String) (i : Info) (hi : i ∈ items) :
+    ∃ b, (items.foldl (scStep t) acc).1.lookup i.url = some b := by
+  induction items generalizing acc with
+  | nil => cases hi
+  | cons x xs ih =>
+    simp only [List.foldl_cons]
+    rcases List.mem_cons.mp hi with rfl | hi
+    · have : ∃ b, (scStep t acc i).1.lookup i.url = some b := by
+        unfold scStep
+        split
+        · exact ⟨_, lookup_cons_self _ _ _⟩
+        · rename_i w hw
+          split
+          · exact ⟨_, lookup_cons_self _ _ _⟩
+          · exact ⟨w, hw⟩
+      obtain ⟨b, hb⟩ := this
+      obtain ⟨b', hb', _⟩ := fold_ext t xs (scStep t acc i) _ _ hb
+      exact ⟨b', hb'⟩
+    · exact ih _ hi
+
+theorem lookup_some_mem {u : String} {b : Bool} {s : Seen} (h : s.lookup u = some b) : u ∈ s.map Prod.fst := by
+  induction s with
+  | nil => cases h
+  | cons p ps ih =>
+    obtain ⟨k, v⟩ := p
+    by_cases hk : u = k
+    · simp [hk]
+    · rw [lookup_cons_ne _ _ hk] at h
+      simp [ih h]
+
+theorem scStep_keys (t : Tree) (acc : Seen × List String) (i : Info) (u : String) (h : u ∈ (scStep t acc i).1.map Prod.fst) :
+    u ∈ acc.1.map Prod.fst ∨ u = i.url := by
+  unfold scStep at h
+  split at h
+  · simp only [List.map_cons, List.mem_cons] at h
+    rcases h with h | h
+    · exact Or.inr h
+    · exact Or.inl h
+  · split at h
+    · simp only [List.map_cons, List.mem_cons] at h
+      rcases h with h | h
+      · exact Or.inr h
+      · exact Or.inl h
+    · exact Or.inl h
+
+/-- **skipped ⇒ the store said so**: a node is marked seen only if its URL was in the store when it was looked up:
+recorded before this call, or recorded by an earlier node of this very call -/
+theorem fold_skip_only_reported (t : Tree) (items : List Info) (acc : Seen × List String) (x : String)
+    (h : x ∈ (items.foldl (scStep t) acc).2) :
+    x ∈ acc.2 ∨ ∃ pre i suf, items = pre ++ i :: suf ∧ i.id = x ∧ (i.url ∈ acc.1.map Prod.fst ∨ i.url ∈ pre.map (·.url)) := by
+  induction items generalizing acc with
+  | nil => exact Or.inl h
+  | cons y ys ih =>
+    simp only [List.foldl_cons] at h
+    rcases ih _ h with h1 | ⟨pre, i, suf, rfl, hid, hk⟩
+    · -- came in with the step on y, or was there before
+      unfold scStep at h1
+      split at h1
+      · exact Or.inl h1
+      · rename_i w hw
+        split at h1
+        · exact Or.inl h1
+        · rcases List.mem_cons.mp h1 with h1 | h1
+          · exact Or.inr ⟨[], y, ys, rfl, h1.symm, Or.inl (lookup_some_mem hw)⟩
+          · exact Or.inl h1
+    · refine Or.inr ⟨y :: pre, i, suf, rfl, hid, ?_⟩
+      rcases hk with hk | hk
+      · rcases scStep_keys t acc y _ hk with hk | hk
+        · exact Or.inl hk
+        · exact Or.inr (by simp [hk])
+      · exact Or.inr (by simp only [List.map_cons, List.mem_cons]; exact Or.inr hk)
+
+/-- the statuses written by `setStatuses`, level by level -/
+def stamp (l : List String) (s : Status) (rq : Bool) (i : Info) : Info :=
+  if l.contains i.id then { i with st := s, req := i.req || rq } else i
+
+mutual
+theorem Tree.atLevel_setStatuses (l : List String) (s : Status) (rq : Bool) (t : Tree) (n : Nat) :
+    (t.setStatuses l s rq).atLevel n = (t.atLevel n).map (stamp l s rq) := by
+  match t, n with
+  | .node i k, 0 => simp only [Tree.setStatuses, Tree.atLevel, List.map_cons, List.map_nil, stamp]
+  | .node i k, n + 1 => simp only [Tree.setStatuses, Tree.atLevel]; exact Forest.atLevel_setStatuses l s rq k n
+theorem Forest.atLevel_setStatuses (l : List String) (s : Status) (rq : Bool) (f : Forest) (n : Nat) :
+    (f.setStatuses l s rq).atLevel n = (f.atLevel n).map (stamp l s rq) := by
+  match f with
+  | .nil => simp [Forest.setStatuses, Forest.atLevel]
+  | .cons t f =>
+    simp only [Forest.setStatuses, Forest.atLevel, List.map_append]
+    rw [Tree.atLevel_setStatuses l s rq t n, Forest.atLevel_setStatuses l s rq f n]
+end
+
+/-- **a node marked seen gets no request**: the final loop of `preprocess` only takes the nodes the seen-store did
+not report (whichever store it was) -/
+theorem finalStep_skips_seen (t2 : Tree) (sr : Seen × List String) (d : Nat) :
+    ∀ x ∈ (finalStep t2 sr d).2.2.1, x ∉ sr.2 := by
+  intro x hx hmem
+  unfold finalStep at hx
+  simp only at hx
+  split at hx
+  · simp at hx
+  · simp only [List.mem_map, List.mem_filter, Tree.atLevel_setStatuses] at hx
+    obtain ⟨j, ⟨⟨i, _, rfl⟩, hfresh⟩, rfl⟩ := hx
+    unfold stamp at hfresh hmem
+    split at hfresh
+    · simp at hfresh
+    · rename_i hc
+      split at hmem
+      · contradiction
+      · exact hc (by simpa using hmem)
+
+/-! ### crawl HQ as the seen-store -/
+
+def hqStep (acc : Seen × List String) (v : String) : Seen × List String :=
+  if (acc.1.lookup v).isSome then acc else ((v, false) :: acc.1, acc.2 ++ [v])
+
+theorem hqAnswer_eq (hq : Seen) (sent : List String) : hqAnswer hq sent = sent.foldl hqStep (hq, []) := rfl
+
+theorem hqStep_some (acc : Seen × List String) (x : String) (b : Bool) (h : acc.1.lookup x = some b) : hqStep acc x = acc := by
+  simp [hqStep, h]
+theorem hqStep_none (acc : Seen × List String) (x : String) (h : acc.1.lookup x = none) :
+    hqStep acc x = ((x, false) :: acc.1, acc.2 ++ [x]) := by
+  simp [hqStep, h]
+
+theorem hq_fold_mem (sent : List String) (acc : Seen × List String) (v : String) :
+    v ∈ (sent.foldl hqStep acc).2 ↔ v ∈ acc.2 ∨ (v ∈ sent ∧ acc.1.lookup v = none) := by
+  induction sent generalizing acc with
+  | nil => simp
+  | cons x xs ih =>
+    simp only [List.foldl_cons]
+    rw [ih]
+    cases hx : acc.1.lookup x with
+    | some b =>
+      rw [hqStep_some acc x b hx]
+      simp only [List.mem_cons]
+      constructor
+      · rintro (h | ⟨h1, h2⟩)
+        · exact Or.inl h
+        · exact Or.inr ⟨Or.inr h1, h2⟩
+      · rintro (h | ⟨h1 | h1, h2⟩)
+        · exact Or.inl h
+        · rw [h1, hx] at h2; cases h2
+        · exact Or.inr ⟨h1, h2⟩
+    | none =>
+      rw [hqStep_none acc x hx]
+      simp only [List.mem_append, List.mem_singleton, List.mem_cons, List.not_mem_nil, or_false]
+      constructor
+      · rintro ((h | h) | ⟨h1, h2⟩)
+        · exact Or.inl h
+        · exact Or.inr ⟨Or.inl h, by rw [h]; exact hx⟩
+        · by_cases hv : v = x
+          · exact Or.inr ⟨Or.inl hv, by rw [hv]; exact hx⟩
+          · rw [lookup_cons_ne _ _ hv] at h2
+            exact Or.inr ⟨Or.inr h1, h2⟩
+      · rintro (h | ⟨h1 | h1, h2⟩)
+        · exact Or.inl (Or.inl h)
+        · exact Or.inl (Or.inr h1)
+        · by_cases hv : v = x
+          · exact Or.inl (Or.inr hv)
+          · exact Or.inr ⟨h1, by rw [lookup_cons_ne _ _ hv]; exact h2⟩
+
+/-- crawl HQ answers exactly with the values it had not recorded -/
+theorem hqAnswer_mem (hq : Seen) (sent : List String) (v : String) :
+    v ∈ (hqAnswer hq sent).2 ↔ v ∈ sent ∧ hq.lookup v = none := by
+  rw [hqAnswer_eq, hq_fold_mem]; simp
+
+/-- when the value sent and the value compared are the same field, a fresh node is marked seen exactly when HQ had
+recorded its value -/
+theorem hq_marked_iff (S : SF) (hagree : ∀ i, hqSendKey S i = hqCmpKey S i) (items : List Info) (hq : Seen) (i : Info)
+    (hi : i ∈ items) (hf : i.st = .fresh) :
+    (hqCmpKey S i ∉ (hqAnswer hq (hqSent S items)).2) ↔ (hq.lookup (hqSendKey S i)).isSome = true := by
+  rw [hqAnswer_mem, ← hagree i]
+  have hs : hqSendKey S i ∈ hqSent S items := by
+    simp only [hqSent, List.mem_map, List.mem_filter]
+    exact ⟨i, ⟨hi, by simp [hf]⟩, rfl⟩
+  cases h : hq.lookup (hqSendKey S i) <;> simp [hs]
 
 end Zeno.Model.Stages
